@@ -227,6 +227,8 @@ def exc_class(e: BaseException) -> str:
         return "err value"
     if isinstance(e, IndexError):
         return "crash"
+    if isinstance(e, AttributeError):
+        return "err attr"
     return "other:" + type(e).__name__
 
 
@@ -292,6 +294,12 @@ def leaf_variants(node, tag, r, tier):
             ids[0] = sum(b << (8 * j) for j in range(node["w"]))
             out.append(ids)
         out += [[0], [top], [0, 0], [1, 2, 3, 4, 5, 6], [0x0010, 0x0020] if node["w"] == 2 else [1, 2]]
+        if node["w"] == 2:
+            # single ids: every (low, high) byte pair in the thorough tier, the boundary rows/columns in the quick tier
+            his = range(256) if tier != "quick" else (0, 1, 2, 16, 254, 255)
+            singles = {lo | (hi << 8) for lo in range(256) for hi in his} | {lo | (hi << 8) for lo in (0, 1, 255) for hi in range(256)}
+            out += [[x] for x in sorted(singles)]
+            out += [[0x0100, 0x0010], [0x0101, 0x0005], [0x2000], [0xFA50], [0x2000, 0xFA50]]
         out.append([(i * 257) & top for i in range(128)])                     # 256 bytes for u16: crosses a fragment
         return out
     return []
@@ -519,6 +527,170 @@ def culprit(node, vs) -> str:
     return ".".join(parts)
 
 
+def culprit_leaf(node, vs):
+    """(dotted name path, leaf schema node) of the first set leaf of a (shrunk) value"""
+    parts, leaf = [], None
+    n, v = node, vs
+    while True:
+        idx = next((i for i, x in enumerate(v) if x is not None), None)
+        if idx is None:
+            break
+        parts.append(n["names"][idx])
+        sub = n["fields"][idx][1]
+        leaf = sub
+        x = v[idx]
+        if sub["k"] == "struct":
+            n, v = sub, x
+        elif sub["k"] == "seq" and x:
+            n, v = sub, x[0]
+        else:
+            break
+    return ".".join(parts), leaf
+
+
+# ---------------------------------------------------------------------------- Sequence[<fixed width int>] fields ("pint")
+def has_pint(node, vs) -> bool:
+    for (tag, n), v in zip(node["fields"], vs):
+        if v is None:
+            continue
+        if n["k"] == "pint":
+            return True
+        if n["k"] == "struct" and has_pint(n, v):
+            return True
+        if n["k"] == "seq" and any(has_pint(n, e) for e in v):
+            return True
+    return False
+
+
+def strip_pint(node, vs):
+    """the same value with every Sequence[int] field unset (nested structs/elements that become empty are dropped)"""
+    out = []
+    for (tag, n), v in zip(node["fields"], vs):
+        if v is None or n["k"] == "pint":
+            out.append(None)
+        elif n["k"] == "struct":
+            inner = strip_pint(n, v)
+            out.append(inner if any(x is not None for x in inner) else None)
+        elif n["k"] == "seq":
+            elems = [e for e in (strip_pint(n, e) for e in v) if any(x is not None for x in e)]
+            out.append(elems or None)
+        else:
+            out.append(v)
+    return out
+
+
+def pint_diff(node, want, got):
+    """walk two neutral values in parallel -> (other_difference: bool, [(want_ids, got_ids) for differing Sequence[int] fields])"""
+    other, pd = False, []
+    if isinstance(got, Bad) or len(want) != len(got):
+        return True, pd
+    for (tag, n), w, g in zip(node["fields"], want, got):
+        if w is None or g is None:
+            other = other or (w is not g)
+            continue
+        k = n["k"]
+        if k == "pint":
+            if w != g:
+                pd.append((w, g))
+        elif k == "struct":
+            o, p2 = pint_diff(n, w, g)
+            other, pd = other or o, pd + p2
+        elif k == "seq":
+            if isinstance(g, Bad) or len(w) != len(g):
+                other = True
+            else:
+                for we, ge in zip(w, g):
+                    o, p2 = pint_diff(n, we, ge)
+                    other, pd = other or o, pd + p2
+        elif w != g:
+            other = True
+    return other, pd
+
+
+def ids_class(want_ids) -> str:
+    """which shape of packed id list the current decoder gets wrong: one id (only possible with a zero low byte) or several"""
+    return "zero-low-byte" if len(want_ids) == 1 else "multi-id"
+
+
+# ============================================================================ the property oracle (implementation vs reference)
+def impl_decode_value(node, bs):
+    """-> (canonical answer string, neutral value or None)"""
+    try:
+        o = node["cls"].decode(bytes(bs))
+    except Exception as e:  # noqa
+        return exc_class(e), None
+    v = vals_of(node, o)
+    return "ok " + fields_str(node, v), v
+
+
+def fail_sig(node, vs, which, seed):
+    """Signature of the implementation's property failure on the in-domain value [vs] for one check, None if it passes.
+       which = enc : cls(**v).encode() == canonical reference encoding
+               dec : cls.decode(reference encoding) == v            (= round trip when enc passes)
+               ord : cls.decode(reference encoding, items of every struct shuffled) == v
+       -> (signature, detail).  Signatures: 'canonical', 'raises:<class>', 'crash', 'err ...', 'value',
+          'pint:zero-low-byte' / 'pint:multi-id' when the ONLY differences are in Sequence[int] fields."""
+    fields = node["fields"]
+    if which == "enc":
+        want = ref.ref_message(fields, vs)
+        got = impl_encode(node, vs)
+        if got == "ok " + hx(want):
+            return None
+        sig = "canonical" if got.startswith("ok") else "raises:" + got
+        return sig, f"encode() = {got[:90]} ; canonical encoding = {hx(want)[:90]}"
+    wire = ref.ref_message(fields, vs, perm=rng(seed, "perm") if which == "ord" else None)
+    expect = "ok " + fields_str(node, vs)
+    back, val = impl_decode_value(node, wire)
+    if back == expect:
+        return None
+    how = "decode(encode(v))" if which == "dec" else f"decode(items in another order {hx(wire)[:60]})"
+    detail = f"{how} = {back[:120]} ; v = {expect[3:][:120]}"
+    if val is None:
+        return back, detail
+    other, pd = pint_diff(node, vs, val)
+    if not other and pd:
+        return "pint:" + ids_class(pd[0][0]), detail + f" ; ids {pd[0][0]} came back as {pd[0][1]}"
+    return "value", detail
+
+
+CHECK_KIND = {"enc": None, "dec": "roundtrip", "ord": "order"}
+
+
+def failures(node, vs, seed):
+    """all failing checks of one in-domain value: [(which, signature, detail)] (ord only if dec passes)"""
+    out = []
+    e = fail_sig(node, vs, "enc", seed)
+    if e:
+        out.append(("enc",) + e)
+    d = fail_sig(node, vs, "dec", seed)
+    if d:
+        out.append(("dec",) + d)
+    else:
+        o = fail_sig(node, vs, "ord", seed)
+        if o:
+            out.append(("ord",) + o)
+    return out
+
+
+LINKED_DECODE = {"crash": "IndexError", "pint:zero-low-byte": "zero-low-byte", "pint:multi-id": "multi-id"}
+
+
+def violation_key(tname, node, small, which, sig):
+    """stable key: check kind + dotted field path; the Sequence[int] (linked services) defect gets its own family"""
+    path, leaf = culprit_leaf(node, small)
+    if leaf is not None and leaf["k"] == "pint":
+        if which == "enc":
+            cls = {"raises:err attr": "AttributeError"}.get(sig, sig.replace("raises:", "").replace(" ", "-"))
+            return f"linked:encode:{cls}"
+        return "linked:decode:" + LINKED_DECODE.get(sig, sig.replace(" ", "-"))
+    kind = CHECK_KIND[which] or ("canonical" if sig == "canonical" else "encode")
+    return f"{kind}:{tname}.{path}"
+
+
+def shrink_failure(node, vs, which, sig, seed):
+    return shrink_value(node, vs, lambda c: ref.ref_fits(node["fields"], c) and (fail_sig(node, c, which, seed) or ("",))[0] == sig)
+
+
 def neighbourhood_failure(node, vs, seed_idx, limit=120):
     """breadth-first over shrunk forms of [vs]; first in-domain one on which the implementation violates the property"""
     queue, seen, n = [vs], set(), 0
@@ -532,34 +704,14 @@ def neighbourhood_failure(node, vs, seed_idx, limit=120):
             n += 1
             if n >= limit:
                 break
-            if ref.ref_fits(node["fields"], cand):
-                bad = prop_check(node, cand, seed_idx)
-                if bad is not None:
-                    kind = bad[0]
-                    small = shrink_value(node, cand, lambda c: (ref.ref_fits(node["fields"], c) and (prop_check(node, c, seed_idx) or ("",))[0] == kind))
-                    why = prop_check(node, small, seed_idx) or bad
-                    return kind, small, why[1]
+            if ref.ref_fits(node["fields"], cand) and not has_pint(node, cand):
+                fl = failures(node, cand, seed_idx)
+                if fl:
+                    which, sig, detail = fl[0]
+                    small = shrink_failure(node, cand, which, sig, seed_idx)
+                    again = fail_sig(node, small, which, seed_idx) or (sig, detail)
+                    return which, sig, small, again[1]
             queue.append(cand)
-    return None
-
-
-# ============================================================================ the property oracle (implementation vs reference)
-def prop_check(node, vs, r_perm_seed):
-    """None if the implementation satisfies the property on this in-domain value, else (kind, detail)."""
-    fields = node["fields"]
-    want = ref.ref_message(fields, vs)
-    got = impl_encode(node, vs)
-    if got != "ok " + hx(want):
-        kind = "canonical" if got.startswith("ok") else "encode"
-        return kind, f"encode() = {got[:90]} ; canonical encoding = {hx(want)[:90]}"
-    expect = "ok " + fields_str(node, vs)
-    back = impl_decode(node, want)
-    if back != expect:
-        return "roundtrip", f"decode(encode(v)) = {back[:120]} ; v = {expect[3:][:120]}"
-    shuffled = ref.ref_message(fields, vs, perm=rng(r_perm_seed, "perm"))
-    back = impl_decode(node, shuffled)
-    if back != expect:
-        return "order", f"decode(items in another order {hx(shuffled)[:60]}) = {back[:120]} ; v = {expect[3:][:120]}"
     return None
 
 
@@ -603,6 +755,16 @@ def run(ctx):
                 find_unsupp(n, prefix + "." + name)
     for t in types:
         find_unsupp(t["node"], t["name"])
+    pint_paths = []
+
+    def find_pint(node, prefix):
+        for name, (tag, n) in zip(node["names"], node["fields"]):
+            if n["k"] == "pint":
+                pint_paths.append(f"{prefix}.{name}: Sequence[{n['kind']}]")
+            elif n["k"] in ("struct", "seq"):
+                find_pint(n, prefix + "." + name)
+    for t in types:
+        find_pint(t["node"], t["name"])
 
     # ---- stream 1: values
     cases = gen_cases(types, tier, seed)
@@ -613,47 +775,71 @@ def run(ctx):
     dec_reqs, dec_meta = [], []
     failing_types = set()
     excluded = collections.Counter()
+    strip_ok = {}     # cache: does the value without its Sequence[int] fields satisfy the property?
+
+    def report_failure(t, ti, node, vs, s, which, sig, detail, seed_i, near=None):
+        """shrink a failing in-domain value and file the violation under its stable key"""
+        if has_pint(node, vs) and (sig in LINKED_DECODE or sig == "raises:err attr"):
+            # fast path for the known linked-services defect: if the value without its Sequence[int] fields is fine,
+            # the key is determined by the signature alone; shrink only the first representative of each key
+            st = strip_pint(node, vs)
+            k = fields_str(node, st)
+            if k not in strip_ok:
+                strip_ok[k] = not failures(node, st, seed_i)
+            if strip_ok[k]:
+                key = "linked:encode:AttributeError" if which == "enc" else "linked:decode:" + LINKED_DECODE[sig]
+                if key in keys_seen:
+                    return
+        small = shrink_failure(node, vs, which, sig, seed_i)
+        again = fail_sig(node, small, which, seed_i) or (sig, detail)
+        failing_types.add(t["name"])
+        wire = ref.ref_message(node["fields"], small, perm=rng(seed_i, "perm") if which == "ord" else None)
+        add(violation_key(t["name"], node, small, which, sig), f"{t['module']}.{t['name']}: {again[1]}", True,
+            type=t["name"], schema=schemas[ti], value=fields_str(node, small), original_value=s[:2000], check=which, signature=sig,
+            impl_encode=impl_encode(node, small), reference_encoding=hx(wire), impl_decode_of_reference_encoding=impl_decode(node, wire),
+            wf_schema=t["wf"], **({"found_near": near} if near else {}))
+
     for idx, ((ti, vs, origin), s, mf, me, ms) in enumerate(zip(cases, sv, m_fits, m_enc, m_spec)):
         t = types[ti]
         node = t["node"]
-        in_dom = (mf == "true")
-        rf = ref.ref_fits(node["fields"], vs)
-        if in_dom != rf:
-            add(f"fits:{t['name']}:model-vs-reference", f"fits_msg = {mf} but reference domain says {rf} on {s[:200]}", False,
-                type=t["name"], value=s)
+        in_thm = (mf == "true")                         # domain of the theorems (model fits_msg)
+        rf = ref.ref_fits(node["fields"], vs)           # domain of the property (reference)
+        hp = has_pint(node, vs)
+        if in_thm != (rf and not hp):
+            add(f"fits:{t['name']}:model-vs-reference", f"fits_msg = {mf} but reference domain says {rf} (Sequence[int] field set: {hp}) on {s[:200]}",
+                False, type=t["name"], value=s)
         ie = impl_encode(node, vs)
-        if not in_dom:
+        if not rf:
             excluded[origin if origin.startswith("ood:") else "ood:generated"] += 1
-        if in_dom:
+        elif hp:
+            excluded["known-finding:sequence-of-int-field-set"] += 1
+        if rf:
             want = "ok " + hx(ref.ref_message(node["fields"], vs))
-            if me != want or ms != want:
+            if in_thm and (me != want or ms != want):
                 add(f"enc:{t['name']}:model-vs-reference", f"model encode {me[:80]} / spec {ms[:80]} != reference {want[:80]}", False,
                     type=t["name"], value=s, broken="Model/Tlv8.v enc or harness/ref/tlv8struct.py")
-            bad = prop_check(node, vs, idx)
-            if bad is not None:
-                kind = bad[0]
-                small = shrink_value(node, vs, lambda c: (ref.ref_fits(node["fields"], c) and (prop_check(node, c, idx) or ("",))[0] == kind))
-                why = prop_check(node, small, idx) or bad
-                failing_types.add(t["name"])
-                add(f"{kind}:{t['name']}.{culprit(node, small)}",
-                    f"{t['module']}.{t['name']}: {why[1]}", True, type=t["name"], schema=schemas[ti],
-                    value=fields_str(node, small), original_value=s[:2000], impl_encode=impl_encode(node, small),
-                    reference_encoding=hx(ref.ref_message(node["fields"], small)), check=kind, wf_schema=t["wf"])
-            elif ie != me:
+            if hp and ms != want:
+                add(f"spec:{t['name']}:model-vs-reference", f"model spec encoder {ms[:80]} != reference {want[:80]}", False, type=t["name"], value=s)
+            fl = failures(node, vs, idx)
+            for which, sig, detail in fl:
+                report_failure(t, ti, node, vs, s, which, sig, detail, idx)
+            if ie != me:
                 add(f"enc:{t['name']}:model-mismatch", f"encode: implementation {ie[:100]} != model {me[:100]} on {s[:160]}", False,
                     type=t["name"], value=s, impl=ie, model=me, broken="correspondence Model/Tlv8.v <-> aiohomekit/tlv8.py")
+            if hp:
+                # accessory side: the model must agree with the code on the reference (packed) wire form too
+                for perm in (None, rng(idx, "perm")):
+                    w = ref.ref_message(node["fields"], vs, perm=perm)
+                    dec_reqs.append(f"dec {schemas[ti]} {hx(w)}")
+                    dec_meta.append((ti, w, "reference-wire:sequence-of-int", None))
         else:
             if ie != me:
                 # before blaming the correspondence: does the implementation break the property on an
                 # in-domain value in the neighbourhood (shrunk forms) of this one?
                 near = neighbourhood_failure(node, vs, idx)
                 if near is not None:
-                    kind, small, why = near
-                    failing_types.add(t["name"])
-                    add(f"{kind}:{t['name']}.{culprit(node, small)}", f"{t['module']}.{t['name']}: {why}", True, type=t["name"],
-                        schema=schemas[ti], value=fields_str(node, small), impl_encode=impl_encode(node, small),
-                        reference_encoding=hx(ref.ref_message(node["fields"], small)), check=kind, wf_schema=t["wf"],
-                        found_near=s[:2000])
+                    which, sig, small, detail = near
+                    report_failure(t, ti, node, small, fields_str(node, small), which, sig, detail, idx, near=s[:2000])
                 else:
                     add(f"enc-ood:{t['name']}:{origin}:model-mismatch",
                         f"encode outside the round-trip domain ({origin}): implementation {ie[:100]} != model {me[:100]} on {s[:160]}", False,
@@ -661,11 +847,12 @@ def run(ctx):
         # decode what the implementation produced (also out of domain: what does an unrepresentable value come back as)
         if ie.startswith("ok "):
             dec_reqs.append(f"dec {schemas[ti]} {ie[3:]}")
-            dec_meta.append((ti, unhx(ie[3:]), "enc-output:" + origin, s if in_dom else None))
+            dec_meta.append((ti, unhx(ie[3:]), "enc-output:" + origin, s if in_thm else None))
         nset = sum(1 for x in vs if x is not None)
         cov.case(f"v{ti}/{s}", nset > 0,
                  sample=dict(stream="value", type=t["name"], origin=origin, value=s[:160], impl=ie[:60]) if idx % 701 == 0 else None,
-                 value_origin=origin.split(":")[0], value_domain="in" if in_dom else "out", enc_result=ie.split(" ")[0] if ie[:2] in ("ok", "er") else ie,
+                 value_origin=origin.split(":")[0], value_domain="theorem" if in_thm else ("property-only(known finding)" if rf else "out"),
+                 enc_result=ie.split(" ")[0] if ie[:2] in ("ok", "er") else ie,
                  enc_len=(lambda n: n if n < 4 else (n // 255) * 255)(len(ie) // 2 if ie.startswith("ok") else 0))
 
     # ---- stream 2: accessory-side encodings (shuffled order), mutations, malformed input
@@ -677,6 +864,9 @@ def run(ctx):
             vs = rand_fields(node, r, r.choice([0.5, 0.9]))
             if not ref.ref_fits(node["fields"], vs):
                 continue
+            if j % 3:
+                vs = strip_pint(node, vs)        # Sequence[int] fields: property oracle in stream 1; here model == code only
+            with_pint = has_pint(node, vs)
             good = ref.ref_message(node["fields"], vs, perm=r if j % 2 else None)
             enc = bytearray(good)
             m = r.random()
@@ -695,15 +885,17 @@ def run(ctx):
             elif m < 0.65:
                 enc += bytes([r.randrange(256)]); label = "lone-byte"
             dec_reqs.append(f"dec {schemas[ti]} {hx(enc)}")
-            dec_meta.append((ti, bytes(enc), "mutation:" + label, fields_str(node, vs) if label == "valid" else None))
+            dec_meta.append((ti, bytes(enc), ("mutation+seqint:" if with_pint else "mutation:") + label, None))
     m_dec = drv.batch(dec_reqs)
     for idx, ((ti, bs, origin, expect), md) in enumerate(zip(dec_meta, m_dec)):
         t = types[ti]
         node = t["node"]
         idec = impl_decode(node, bs)
-        # reference verdict
-        verdict = None
+        # reference verdict (not for wire forms carrying a Sequence[int] field: known finding, keyed in stream 1)
+        verdict, rv = None, None
         try:
+            if origin.startswith(("reference-wire", "mutation+seqint")):
+                raise ref.Unspecified("sequence-of-int")
             rv = ref.ref_decode(node["fields"], bs)
             verdict = "ok " + fields_str(node, rv)
         except ref.RefParseError:
@@ -712,7 +904,27 @@ def run(ctx):
             verdict = None
         except Exception:  # noqa
             verdict = None
-        if verdict is not None and idec != verdict:
+        linked_key = None
+        if verdict is not None and idec != verdict and verdict.startswith("ok") and has_pint(node, rv):
+            # a mutation produced an item of a Sequence[int] field: known linked-services defect, or something else?
+            back, val = impl_decode_value(node, bs)
+            if val is not None:
+                other, pd = pint_diff(node, rv, val)
+                if not other and pd:
+                    linked_key = "linked:decode:" + ids_class(pd[0][0])
+            elif back == "crash":
+                st = strip_pint(node, rv)
+                if impl_decode(node, ref.ref_message(node["fields"], st)) == "ok " + fields_str(node, st):
+                    linked_key = "linked:decode:IndexError"
+        if linked_key is not None:
+            failing_types.add(t["name"])
+            add(linked_key, f"{t['module']}.{t['name']}.decode({hx(bs)[:80]}) = {idec[:120]} ; a conformant decoder gives {verdict[:120]}",
+                True, type=t["name"], schema=schemas[ti], bytes=hx(bs), impl=idec, reference=verdict, origin=origin, wf_schema=t["wf"])
+            if idec != md:
+                add(f"dec:{t['name']}:{origin.split(':')[0]}:model-mismatch",
+                    f"decode ({origin}): implementation {idec[:100]} != model {md[:100]} on {hx(bs)[:120]}", False,
+                    type=t["name"], bytes=hx(bs), impl=idec, model=md, broken="correspondence Model/Tlv8.v <-> aiohomekit/tlv8.py")
+        elif verdict is not None and idec != verdict:
             slug = "unknown-type-accepted" if (verdict == "err parse" and idec.startswith("ok")) else \
                    (culprit_of_decode(node, verdict, idec) or "value")
             failing_types.add(t["name"])
@@ -722,7 +934,7 @@ def run(ctx):
             add(f"dec:{t['name']}:{origin.split(':')[0]}:model-mismatch",
                 f"decode ({origin}): implementation {idec[:100]} != model {md[:100]} on {hx(bs)[:120]}", False,
                 type=t["name"], bytes=hx(bs), impl=idec, model=md, broken="correspondence Model/Tlv8.v <-> aiohomekit/tlv8.py")
-        if verdict is not None and md != verdict and t["wf"]:
+        if verdict is not None and md != verdict and t["wf"] and not (verdict.startswith("ok") and has_pint(node, rv)):
             add(f"dec:{t['name']}:model-vs-reference", f"model decode {md[:100]} != reference {verdict[:100]} on {hx(bs)[:120]}", False,
                 type=t["name"], bytes=hx(bs), model=md, reference=verdict)
         cov.case(f"d{ti}/{hx(bs)}", idec != "ok " + fields_str(node, [None] * len(node["fields"])),
@@ -767,7 +979,12 @@ def run(ctx):
         wf_schema="distinct one-byte item types per struct; a struct used as a list element has no item type 0; any nesting depth",
         fits_msg="ints in range of their width; enum values are members < 256; strings valid UTF-8; every SET string/bytes/list/"
                  "nested struct/list element serialises to >= 1 byte (a set-but-empty field is not transmitted, so it cannot be told "
-                 "from an unset one); fields of unsupported type unset",
+                 "from an unset one); fields of unsupported type unset; Sequence[<fixed-width int>] fields (linked services) unset",
+        sequence_of_int_fields="EXCLUDED from the theorems' domain (known finding): the current code cannot encode a non-empty list "
+                 "(AttributeError) and decodes the packed id array through tlv_array (split at 0x00 type bytes).  Values with such a field "
+                 "set stay in the PROPERTY's domain: the reference packed-array codec judges the implementation on them (violation keys "
+                 "linked:*), and model == implementation is still checked exactly on them",
+        sequence_of_int_paths=pint_paths,
         excluded_by_fits=dict(excluded),
         unsupported_fields=unsupp,
         not_wf=[t["name"] for t in types if not t["wf"]])
@@ -988,19 +1205,32 @@ def stream_database(types, add, cov, tier, r):
                 accs.append(ac); want.append((aid, wsv))
             top = [None] * len(node["fields"]); top[ia] = accs
             wire = ref.ref_message(node["fields"], top, perm=r if run % 3 == 0 else None)
-            try:
-                d = db_t["cls"].decode(wire).to_dict()
-                got = [(a["aid"], [(s["type"], s["iid"], [(c["type"], c["iid"]) for c in s["characteristics"]], list(s.get("linked", [])))
-                                   for s in a["services"]]) for a in d]
-            except Exception as e:  # noqa
-                got = exc_class(e)
+
+            def view(w):
+                try:
+                    d = db_t["cls"].decode(w).to_dict()
+                    return [(a["aid"], [(s["type"], s["iid"], [(c["type"], c["iid"]) for c in s["characteristics"]], list(s.get("linked", [])))
+                                        for s in a["services"]]) for a in d]
+                except Exception as e:  # noqa
+                    return exc_class(e)
+            got = view(wire)
             if got != want:
-                nl = max((len(s[3]) for a in want for s in a[1]), default=0)
-                slug = "linked" if isinstance(got, list) and [(a, [(s[0], s[1], s[2]) for s in ss]) for a, ss in got] == \
-                    [(a, [(s[0], s[1], s[2]) for s in ss]) for a, ss in want] else "structure"
-                add(f"database:to_dict:{slug}", f"Pdu09Database.decode(reference-encoded database).to_dict() differs: got {str(got)[:140]} ; want {str(want)[:140]}",
-                    True, bytes=hx(wire), impl=str(got)[:3000], expected=str(want)[:3000], max_linked=nl)
+                nolink = lambda x: [(a, [(s[0], s[1], s[2]) for s in ss]) for a, ss in x]
+                key = "database:to_dict:structure"
+                if isinstance(got, list) and nolink(got) == nolink(want):
+                    bad = next((ws[3], gs[3]) for (_, wss), (_, gss) in zip(want, got) for ws, gs in zip(wss, gss) if ws[3] != gs[3])
+                    key = "linked:database-to_dict:" + ids_class(bad[0])
+                elif got == "crash":
+                    # attributable to the linked services? the same database without them must decode fine
+                    st = strip_pint(node, top)
+                    w2 = nolink(want)
+                    g2 = view(ref.ref_message(node["fields"], st))
+                    if isinstance(g2, list) and nolink(g2) == w2:
+                        key = "linked:database-to_dict:IndexError"
+                add(key, f"Pdu09Database.decode(reference-encoded database).to_dict() differs: got {str(got)[:140]} ; want {str(want)[:140]}",
+                    True, bytes=hx(wire), impl=str(got)[:3000], expected=str(want)[:3000])
             cov.case("db" + hx(wire), True, database_accessories=len(want))
+        stream_fixture(db_t, add, cov)
     svc_t = by_name.get("Service")
     if svc_t is not None and hasattr(svc_t["cls"], "to_dict") and "linked_services" in svc_t["node"]["names"]:
         node = svc_t["node"]
@@ -1020,7 +1250,55 @@ def stream_database(types, add, cov, tier, r):
             except Exception as e:  # noqa
                 got = exc_class(e)
             if got != linked:
-                add(f"signature:Service.to_dict:linked:{'one' if n == 1 else 'many'}",
-                    f"BLE service signature with linked services {linked}: to_dict()['linked'] = {got}", True,
+                cls = "IndexError" if got == "crash" else (ids_class(linked) if isinstance(got, list) else str(got).replace(" ", "-"))
+                add(f"linked:signature-to_dict:{cls}",
+                    f"BLE service signature {hx(wire)} with linked services {linked}: Service.decode(...).to_dict()['linked'] = {got}", True,
                     bytes=hx(wire), impl=str(got), expected=str(linked))
             cov.case("sig" + hx(wire), True, signature_linked=n)
+
+
+def stream_fixture(db_t, add, cov):
+    """The captured Schlage Encode Plus database shipped with the library's own tests (home-assistant/core#100160):
+    linked services as the reference decoder reads them vs to_dict().  Optional: skipped when the fixture is not importable."""
+    try:
+        import tests.test_coap_structs as tcs
+        blob = bytes(tcs.database_schlage_encode_plus)
+    except Exception:  # noqa
+        cov.extra["fixture_schlage"] = "not available"
+        return
+    node = db_t["node"]
+    try:
+        rv = ref.ref_decode(node["fields"], blob)
+    except Exception as e:  # noqa
+        cov.extra["fixture_schlage"] = "reference decoder: " + type(e).__name__
+        return
+
+    def links(vs_db):
+        out = {}
+        n_acc_c = node["fields"][node["names"].index("_accessories")][1]
+        for ac in vs_db[node["names"].index("_accessories")] or []:
+            n_acc = n_acc_c["fields"][n_acc_c["names"].index("accessory")][1]
+            av = ac[n_acc_c["names"].index("accessory")]
+            n_svc_c = n_acc["fields"][n_acc["names"].index("_services")][1]
+            for sc in av[n_acc["names"].index("_services")] or []:
+                n_svc = n_svc_c["fields"][n_svc_c["names"].index("service")][1]
+                sv = sc[n_svc_c["names"].index("service")]
+                out[sv[n_svc["names"].index("instance_id")]] = list(sv[n_svc["names"].index("linked_services")] or [])
+        return out
+    want = links(rv)
+    try:
+        d = db_t["cls"].decode(blob).to_dict()
+        got = {s["iid"]: list(s.get("linked", [])) for a in d for s in a["services"]}
+    except Exception as e:  # noqa
+        got = exc_class(e)
+    cov.extra["fixture_schlage"] = dict(services=len(want), with_linked=sum(1 for v in want.values() if v))
+    cov.case("fixture-schlage", True, fixture="schlage")
+    if got != want:
+        if isinstance(got, dict):
+            iid = next(k for k in want if got.get(k) != want[k])
+            cls, detail = ids_class(want[iid]), f"service {iid}: linked {want[iid]} read as {got.get(iid)}"
+        else:
+            cls, detail = ("IndexError" if got == "crash" else str(got)), str(got)
+        add(f"linked:database-to_dict:{cls}",
+            f"Pdu09Database.decode(tests/test_coap_structs.py::database_schlage_encode_plus).to_dict(): {detail}", True,
+            fixture="tests.test_coap_structs.database_schlage_encode_plus", impl=str(got)[:2000], expected=str(want)[:2000])
